@@ -43,3 +43,27 @@ Lemma gen_generated_ok :
 Proof.
   split; [apply gen_bindings_ok|]. split; [apply gen_call_ok|]. split; [apply gen_allsites_ok|apply gen_unrolled_ok].
 Qed.
+
+(* ---- the generated call, run alone against the in-order peer, returns its own reply -------- *)
+From PM.proofs Require Import LockSerial_proofs.
+
+Lemma gen_call_own_ok : own_ok call_skeleton.
+Proof.
+  unfold own_ok. intros re t k s l s' l' (Hl & Ht & Hf & Hp) H.
+  destruct s as [lk tidc tb fb peer lg]. cbn in Hl, Ht, Hf, Hp. subst lk tb fb peer.
+  cbn in H. rewrite N.eqb_refl in H. cbn in H. rewrite Nat.eqb_refl in H. cbn in H.
+  inversion H; subst. split.
+  - repeat split.
+  - eexists. split; [reflexivity|]. split; reflexivity.
+Qed.
+
+(* a skeleton in which the reply is picked up after the lock has been released is NOT own_ok-
+   provable this way and is not well bracketed; see docs/C15.md for the mutation trials *)
+
+Lemma gen_good_program : forall calls, good_program (map (fun n => repeat call_skeleton n) calls).
+Proof.
+  intro calls. unfold good_program. rewrite Forall_forall. intros p Hp.
+  apply in_map_iff in Hp. destruct Hp as (n & <- & _).
+  rewrite Forall_forall. intros c Hc. apply repeat_spec in Hc. subst c.
+  split; [exact gen_call_ok|exact gen_call_own_ok].
+Qed.
